@@ -30,7 +30,7 @@ BAD_AT_CALL = ('NameError', 'TypeError', 'AttributeError', 'UnboundLocalError', 
 
 def plan(tier, seed):
     if tier == 'quick':
-        return {'n': 30000, 'deadline': 50,
+        return {'n': 30000, 'deadline': 150,
                 'floor': {'distinct_nontrivial': 2500, 'accepted': 5000, 'loaded': 5000, 'predicates_called': 8000,
                           'boundary_accepted': 2500, 'compiler_reported_too_large': 100}}
     return {'n': 150000, 'deadline': 540,
